@@ -47,8 +47,18 @@ class PF:
     def nlevels(self):
         return len(self.levels)
 
+    def ratio_list(self):
+        """refinement ratios between consecutive levels (2 everywhere unless [ratios] is set)"""
+        return list(getattr(self, 'ratios', None) or [2] * max(0, len(self.levels) - 1))
+
+    def scale(self, lv):
+        k = 1
+        for r in self.ratio_list()[:lv]:
+            k *= r
+        return k
+
     def dx(self, lv):
-        return [d / (2 ** lv) for d in self.dx0]
+        return [d / self.scale(lv) for d in self.dx0]
 
     def geo_high(self):
         if getattr(self, 'geo_high_given', None):
@@ -56,7 +66,7 @@ class PF:
         return [lo + n * d for lo, n, d in zip(self.geo_low, self.n0, self.dx0)]
 
     def grid_size(self, lv):
-        return [n * 2 ** lv for n in self.n0]
+        return [n * self.scale(lv) for n in self.n0]
 
 
 # ---------------------------------------------------------------- mesh
@@ -304,7 +314,7 @@ def make_odd0(r2, pf, mesh):
 
 def gen_plotfile(rng, ndims=None, nlevels=None, payload=None, geo_stream=None,
                  nfields=None, max_blocks=3, allow_repeat=False, layout=None, bf=None, mesh='blocks',
-                 awkward=0.0, odd0=0.0, odd_names=0.0, domain_first=0.0):
+                 awkward=0.0, odd0=0.0, odd_names=0.0, domain_first=0.0, unicode_names=0.0):
     """awkward / odd0: probabilities of a geometry whose extent/dx quotient
     rounds below the cell count, and of an odd level-0 cell count.  Both draw
     from a generator derived from (not advancing) rng, so that the other choices
@@ -340,6 +350,19 @@ def gen_plotfile(rng, ndims=None, nlevels=None, payload=None, geo_stream=None,
             a, b = r2.sample(range(1, n), 2)
             pf.fields[a] = pf.fields[b] = r2.choice(['c{0}', 'q{}', 'w[1]', 'd\\d+'])
         extra.append('names:' + kind)
+    r3 = random.Random(repr(rng.getstate()[1][:8]) + 'unicode')
+    if unicode_names and r3.random() < unicode_names and len(pf.fields) >= 2:
+        # field names that are not plain ASCII (UTF-8 in the Header), the ASCII remainder of one of them being another
+        # field's name
+        n = len(pf.fields)
+        a, b = sorted(r3.sample(range(n), 2))
+        pair = r3.choice([('\u0394p', 'p'), ('\u03c1u', 'u'), ('temp\u00e9rature', 'temprature'), ('\u03c9_H2', '_H2'),
+                          ('Y(H\u2082O)', 'Y(HO)'), ('\u00b5_visc', '_visc')])
+        if pair[0] not in pf.fields and pair[1] not in pf.fields:
+            pf.fields[a] = pair[0]
+            if r3.random() < 0.6:
+                pf.fields[b] = pair[1]
+            extra.append('names:unicode')
     if odd0 and r2.random() < odd0:
         pf.n0 = list(pf.n0)
         extra.append('odd0:%d' % make_odd0(r2, pf, mesh))
@@ -415,9 +438,11 @@ def flatten_axis(pf, d):
     return pf
 
 
-def gen_deep_plotfile(rng, nlevels=12, ndims=2, nfields=2):
+def gen_deep_plotfile(rng, nlevels=12, ndims=2, nfields=2, box=2):
     """a well-formed plotfile with MANY levels (Level_10, Level_11, ... sort before Level_2 as strings): every level
-    is one 2x2(x2) box refining one cell of the box below; tiny, so that a dozen levels stay cheap"""
+    is one box of [box] cells per direction; box = 2: it refines one cell of the box below; box = 4: it refines the
+    middle two cells of the box below (every box contains the mid-plane of all finer ones).  Tiny, so that a dozen
+    levels stay cheap"""
     pf = PF()
     pf.ndims = ndims
     pf.bf = 2
@@ -426,23 +451,27 @@ def gen_deep_plotfile(rng, nlevels=12, ndims=2, nfields=2):
     pf.step = 7
     pf.geo_low = [0.0] * ndims
     pf.dx0 = [1.0] * ndims
-    pf.n0 = [2] * ndims
+    pf.n0 = [box] * ndims
     lo = tuple([0] * ndims)
     base = 0
     layouts = []
     for lv in range(nlevels):
         level = Level()
-        hi = tuple(l + 1 for l in lo)
+        hi = tuple(l + box - 1 for l in lo)
         level.boxes = [(lo, hi)]
-        shape = tuple([2] * ndims) + (nfields,)
+        shape = tuple([box] * ndims) + (nfields,)
         level.data.append(gen_payload(rng, shape, 'ints', base))
         base += int(np.prod(shape))
         level.files, lk = gen_layout(rng, 1, None)
         layouts.append(lk)
         pf.levels.append(level)
-        # the next level refines one cell of this box
-        cell = tuple(l + rng.randint(0, 1) for l in lo)
-        lo = tuple(2 * c for c in cell)
+        if box == 2:
+            # the next level refines one cell of this box
+            cell = tuple(l + rng.randint(0, 1) for l in lo)
+            lo = tuple(2 * c for c in cell)
+        else:
+            # the next level refines the middle half of this box
+            lo = tuple(2 * (l + box // 4) for l in lo)
     pf.meta = dict(ndims=ndims, nlevels=nlevels, bf=2, nfields=nfields, payload='ints', geo='exact/zero', layouts=layouts,
                    nboxes=[1] * nlevels, nfiles=[1] * nlevels, n0=pf.n0, deep=True)
     return pf
@@ -537,7 +566,7 @@ def header_text(pf, extra_ratio=0):
     out.append(f"{nl - 1}\n")
     out.append(' '.join(fnum(x) for x in pf.geo_low) + " \n")
     out.append(' '.join(fnum(x) for x in pf.geo_high()) + " \n")
-    out.append(' '.join('2' for _ in range(nl - 1 + extra_ratio)) + "\n")
+    out.append(' '.join(str(r) for r in pf.ratio_list() + [2] * extra_ratio) + "\n")
     tups = []
     for lv in range(nl):
         dlo = [d * 2 ** lv for d in getattr(pf, 'dom_lo0', [0] * pf.ndims)]
@@ -562,7 +591,7 @@ def header_text(pf, extra_ratio=0):
 
 def write_plotfile(pf, path):
     os.makedirs(path)
-    with open(os.path.join(path, 'Header'), 'w') as f:
+    with open(os.path.join(path, 'Header'), 'w', encoding='utf-8') as f:
         f.write(header_text(pf, extra_ratio=pf.meta.get('extra_ratio', 0)))
     for lv, level in enumerate(pf.levels):
         d = os.path.join(path, f"Level_{lv}")
